@@ -31,9 +31,17 @@ Where the code still deviates from the property (findings, each with a counterex
   its n−1 siblings are lost (`one_response_per_expanded_query_partial`, `answer_is_itemwise_partial`,
   `sibling_responses_lost_counterexample`); repairing it needs `json_array_op` to return several results
   (an API change);
+* `pipeline/invariant-error-loses-request` — a (user-defined) plugin that leaves a non-object among the
+  expanded queries gets the whole query answered with one invariant error whose request is the placeholder
+  (`invariant_breaker_loses_request_counterexample`);
 * the prediction cache is the one piece of shared mutable state: transparent iff no two inputs with different
   predictions share a rounded key (`cache_transparent`, `cache_collision_counterexample`; the collision on the
   real record is C08's finding `predict/cache-rounding-collision`).
+
+Plugin configurations include user-defined plugins (`Plugin.userSplit`, `userFailOn`, `userBreaker`; the harness
+pushes real implementations of them into `CompassApp.input_plugins`): a plugin that expands only SOME of the
+queries leaves a state that mixes plain queries and nested arrays, which is de-nested element by element
+(`flatten_denests_mixed_states`, `plugin_step_concatenates`).
 
 The theorems about answering and echoing take the hypothesis that every plugin maps an object to an object or
 a non-empty array of objects (`ObjOp`): proved for grid search, inject, the load balancer and the user-defined
